@@ -2,11 +2,52 @@
 # usage: tools/try_seed.py <patch.diff> [props...]
 # Applies the patch to a scratch copy of /repo's analysed subtrees and runs the checks there
 # (no write to /repo, so concurrently running checks are not disturbed).
-import os, shutil, subprocess, sys
+import hashlib, json, os, shutil, subprocess, sys
 sys.path.insert(0, os.path.join(os.path.dirname(os.path.abspath(__file__)), "..", "sa"))
 import selftest, claims
 patch = sys.argv[1]
 props = sys.argv[2:] or claims.READY
+# development cache (never used by a registered check): the verdict of one check on one patch depends on the patch, /repo's
+# HEAD, the engine, the rule module of the property and the rule modules it imports
+DEPS = {"C01": ["c13"], "C04": ["c01", "c13", "c16", "c17"], "C07": ["c19"], "C16": ["c17"], "C17": ["c16"]}
+CACHE = os.environ.get("VERIF_TRY_CACHE", "/var/tmp/verif-trycache")
+def _dig(paths):
+    h = hashlib.sha256()
+    paths = list(paths)
+    for q in sorted(paths):
+        h.update(q.encode()); h.update(open(q, "rb").read())
+    return h.hexdigest()
+def cache_key(p, tier):
+    V = selftest.VERIF
+    sa = os.path.join(V, "sa")
+    eng = [os.path.join(sa, f) for f in os.listdir(sa) if f.endswith(".py")]
+    eng += [os.path.join(V, "spec", f) for f in os.listdir(os.path.join(V, "spec"))] + [os.path.join(V, "known_findings.json"), os.path.join(V, "vcheck")]
+    rules = [os.path.join(sa, "rules", "%s.py" % q) for q in [p.lower()] + DEPS.get(p, [])]
+    head = subprocess.run(["git", "-C", "/repo", "rev-parse", "HEAD"], stdout=subprocess.PIPE, text=True).stdout.strip()
+    dirty = subprocess.run(["git", "-C", "/repo", "status", "--porcelain", "-uno"], stdout=subprocess.PIPE, text=True).stdout.strip()
+    if dirty:
+        return None
+    return hashlib.sha256("|".join([p, tier, head, _dig(eng), _dig(rules), _dig([os.path.abspath(patch)])]).encode()).hexdigest()
+def show(p, rc, out):
+    if rc != 0:
+        print("== %s rc=%d" % (p, rc))
+        for l in [l for l in out.splitlines() if not l.startswith(("VIOLATION", "KNOWN", "WARNING"))][:6]:
+            print(l[:330])
+tier = os.environ.get("TIER", "quick")
+todo = []
+keys = {}
+for p in props:
+    k = cache_key(p, tier) if CACHE != "off" else None
+    keys[p] = k
+    f = k and os.path.join(CACHE, k + ".json")
+    if f and os.path.exists(f):
+        keys[p] = json.load(open(f))
+    else:
+        todo.append(p)
+if not todo:
+    for p in props:
+        show(p, keys[p]["rc"], keys[p]["out"])
+    sys.exit(0)
 d = selftest.make_scratch("/repo")
 try:
     # break hard links of files the patch touches: patch(1) writes a new file by default (--backup off, rename)
@@ -14,12 +55,16 @@ try:
     if r.returncode != 0:
         print("patch does not apply:", r.stdout[:300]); sys.exit(2)
     env = dict(os.environ); env["VERIF_EVIDENCE_OUT"] = os.path.join(d, "ev.json")
-    tier = os.environ.get("TIER", "quick")
     for p in props:
+        if p not in todo:
+            show(p, keys[p]["rc"], keys[p]["out"])
+            continue
         r = subprocess.run([os.path.join(selftest.VERIF, "vcheck"), p, tier, "--repo", d], stdout=subprocess.PIPE, stderr=subprocess.STDOUT, text=True, env=env)
-        if r.returncode != 0:
-            print("== %s rc=%d" % (p, r.returncode))
-            for l in [l for l in r.stdout.splitlines() if not l.startswith(("VIOLATION", "KNOWN", "WARNING"))][:6]:
-                print(l[:330])
+        show(p, r.returncode, r.stdout)
+        if keys[p] and keys[p] == cache_key(p, tier):      # nothing the verdict depends on was edited while the check ran
+            os.makedirs(CACHE, exist_ok=True)
+            tmp = os.path.join(CACHE, "%s.%d.tmp" % (keys[p], os.getpid()))
+            json.dump({"rc": r.returncode, "out": "\n".join(r.stdout.splitlines()[:40])}, open(tmp, "w"))
+            os.replace(tmp, os.path.join(CACHE, keys[p] + ".json"))
 finally:
     shutil.rmtree(d, ignore_errors=True)
